@@ -27,9 +27,9 @@ MODFILES = {'K': '_numba_integrate.py', 'T': 'transform.py', 'E': 'earth.py', 'U
 
 def sources():
     out = {}
-    for fn in os.listdir(os.path.join(REPO, 'pyins')):
+    for fn in subprocess.run(['git', '-C', REPO, 'ls-tree', '--name-only', 'HEAD', 'pyins/'], capture_output=True, text=True).stdout.split():
         if fn.endswith('.py'):
-            out[fn] = open(os.path.join(REPO, 'pyins', fn)).read()
+            out[os.path.basename(fn)] = subprocess.run(['git', '-C', REPO, 'show', 'HEAD:' + fn], capture_output=True, text=True).stdout
     return out
 
 
@@ -142,7 +142,7 @@ def run_one(job):
     fn, a, b, new = loc
     d = tempfile.mkdtemp(prefix='selfseed_', dir='/tmp')
     try:
-        shutil.copytree(os.path.join(REPO, 'pyins'), os.path.join(d, 'pyins'), ignore=shutil.ignore_patterns('__pycache__', 'tests'))
+        subprocess.run('git -C %s archive HEAD pyins | tar -x -C %s' % (REPO, d), shell=True, check=True)     # committed HEAD (run_seeds.py may be patching the working tree)
         path = os.path.join(d, 'pyins', fn)
         text = open(path).read()
         old = text[a:b]
